@@ -34,6 +34,10 @@ import (
 // returns an error (plain, or wrapping context.Canceled / DeadlineExceeded) or panics, from PerformLogs or from
 // StaleReportLogs, with or without logs on offer.  Logs offered on later polls must take effect, and the provider records
 // every poll: an open started coordinator must ask it at least every 2 s (Polls / End in the run's output).
+//
+// Histories over several lockout windows (c17GenRenew): one upkeep's lock entry is written again and again, the writes
+// a fraction of the window apart, with questions between (first write + window) and (last write + window); the Spec
+// clause for them is `liveOk` / `lockout_renewed` (the lockout counts from the last change of the blocking state).
 
 type c17Cfg struct {
 	Lockout  int64 `json:"lockout"`  // ns, constructor argument (<1 → default 20 min)
@@ -547,6 +551,9 @@ const (
 )
 
 func c17Gen(r *Rng, em *Emitter) c17Input {
+	if r.Chance(11) {
+		return c17GenRenew(r, em)
+	}
 	var in c17Input
 	kind := c17Plain
 	switch x := r.Intn(100); {
@@ -967,6 +974,346 @@ func c17Gen(r *Rng, em *Emitter) c17Input {
 	return in
 }
 
+// c17GenRenew: one or two upkeeps that keep performing over SEVERAL lockout windows.  Per upkeep a chain of keys with
+// rising check blocks; each round of the history raises the upkeep's blocking state at least once (the accept of the
+// next key, the first confirmed log of the key in flight, a perform re-orged to a later block) and rounds are a fraction
+// of the lockout window apart, so consecutive writes of one upkeep's lock entry are separated in time while the entry is
+// still live.  Between the rounds come operations that change nothing (re-delivered accepts, logs of keys nobody accepted,
+// under-confirmed logs, accepts of older check blocks; through the plugin: heads, observes, reports, transmit questions)
+// — each followed by a probe in run 0 — and the final probe sits at (some write) + window − 1 ns / + 0 / + 1 ns or at
+// a fraction of the window after it: questions later than (first write + window) and no later than (last write + window).
+func c17GenRenew(r *Rng, em *Emitter) c17Input {
+	var in c17Input
+	in.Via = "coord"
+	if r.Chance(55) {
+		in.Via = "plugin"
+		in.Decoy = []string{"open", "closeEarly", "", ""}[r.Intn(4)]
+	}
+	plugin := in.Via == "plugin"
+	in.Cfg.MinConfs = r.Range(-1, 2)
+	in.Cfg.Clean = 29_870_000_007
+	if r.Chance(40) {
+		in.Cfg.Clean = 7_330_000_003
+	}
+	switch x := r.Intn(100); {
+	case x < 45:
+		in.Cfg.Lockout = int64(r.Range(5, 30))*c17Second + 500_000_013
+	case x < 75:
+		in.Cfg.Lockout = int64(r.Range(30, 150))*c17Second + 500_000_013
+	case x < 88:
+		in.Cfg.Lockout = 0 // default 20 min
+	default:
+		in.Cfg.Lockout = int64(r.Range(8, 25))*int64(time.Minute) + 500_000_013
+	}
+	if plugin {
+		in.Cfg.Lockout -= in.Cfg.Lockout % int64(time.Millisecond)
+	}
+	win := in.Cfg.Lockout
+	if win < 1 {
+		win = int64(coordinator.DefaultLockoutWindow)
+	}
+	nIDs := 1
+	if win > 12*c17Second && r.Chance(55) {
+		nIDs = 2
+	}
+	idPool := []string{"5", "77", "3141592653589793238462643383279502884197", "0", "900"}
+	ids := make([]string, 0, nIDs)
+	for _, j := range r.Perm(len(idPool))[:nIDs] {
+		ids = append(ids, idPool[j])
+	}
+	var base int64
+	switch r.Intn(6) {
+	case 0:
+		base = int64(r.Range(0, 3))
+	case 1:
+		base = int64(r.Range(90, 100)) // the chain crosses the digit-length boundary 99/100
+	default:
+		base = int64(r.Range(1000, 50_000_000))
+	}
+	type chain struct {
+		id      string
+		cur     string // key in flight ("" before the first accept)
+		curBlk  int64
+		logged  bool  // cur has had a confirmed log
+		top     int64 // highest block mentioned for this id
+		lastTB  int64
+		isPerf  bool // the confirmed log of cur was a perform log
+		tx      string
+		oldKeys []string
+	}
+	chains := make([]*chain, len(ids))
+	for i, id := range ids {
+		chains[i] = &chain{id: id, top: base + int64(r.Range(0, 3))}
+	}
+	goodConfs := func() int64 {
+		c := int64(in.Cfg.MinConfs)
+		if c < 0 {
+			c = 0
+		}
+		return c + int64(r.Range(0, 3))
+	}
+	txHash := func() string {
+		if r.Chance(20) {
+			return ""
+		}
+		return "0x" + hx(r.Bytes(6))
+	}
+	var ops []c17Op
+	var gaps []int64
+	var batch []bool
+	var writes []int // positions of operations that raise some upkeep's blocking state
+	add := func(o c17Op, gap int64, raises bool) {
+		if raises {
+			writes = append(writes, len(ops))
+		}
+		ops = append(ops, o)
+		gaps = append(gaps, gap)
+		batch = append(batch, false)
+	}
+	small := func() int64 { return int64(r.Range(0, 1)) * c17Second }
+	blk := func(v int64) string { return big.NewInt(v).String() }
+	headOp := func() c17Op {
+		c := chains[r.Intn(len(chains))]
+		b := c.top + int64(r.Range(-2, 3))
+		if b < 0 {
+			b = 0
+		}
+		o := c17Op{T: "h", Block: blk(b), Active: append([]string{}, ids...), Ids: []string{}}
+		if r.Chance(30) {
+			o.Active = append(o.Active, "31337")
+		}
+		for _, id := range ids {
+			if r.Chance(90) {
+				o.Ids = append(o.Ids, id)
+			}
+		}
+		return o
+	}
+	// an operation that changes no blocking state (run 0 probes after it)
+	spacer := func(gap int64) {
+		c := chains[r.Intn(len(chains))]
+		for try := 0; try < 4; try++ {
+			switch x := r.Intn(100); {
+			case plugin && x < 22:
+				add(c17Op{T: "o"}, gap, false)
+				return
+			case plugin && x < 32:
+				add(headOp(), gap, false)
+				if r.Chance(70) {
+					add(c17Op{T: "o"}, 0, false)
+				}
+				return
+			case plugin && x < 40:
+				o := c17Op{T: "r", Block: blk(c.top + int64(r.Range(-1, 2))), Ids: []string{}}
+				for i, m := 0, r.Range(1, 3); i < m; i++ {
+					o.Ids = append(o.Ids, ids[r.Intn(len(ids))])
+				}
+				add(o, gap, false)
+				return
+			case plugin && x < 47 && c.cur != "":
+				ks := []string{c.cur}
+				if len(c.oldKeys) > 0 && r.Bool() {
+					ks = append(ks, c.oldKeys[r.Intn(len(c.oldKeys))])
+				}
+				add(c17Op{T: "x", Keys: ks}, gap, false)
+				return
+			case x < 60 && c.cur != "": // the accept of the key in flight delivered again
+				add(c17Op{T: "a", Key: c.cur}, gap, false)
+				em.Hit("renew:dup-accept")
+				return
+			case x < 70: // a log of a key nobody accepted
+				kk := c17Key(blk(c.top+int64(r.Range(1, 4))), c.id)
+				if r.Bool() {
+					add(c17Op{T: "p", Key: kk, TB: blk(c.top + 9), Confs: goodConfs(), Tx: txHash()}, gap, false)
+				} else {
+					add(c17Op{T: "s", Key: kk, TB: "1", Confs: goodConfs(), Tx: txHash()}, gap, false)
+				}
+				em.Hit("renew:log-unknown-key")
+				return
+			case x < 80 && c.cur != "" && !c.logged && in.Cfg.MinConfs > 0: // a log of the key in flight with too few confirmations
+				add(c17Op{T: "p", Key: c.cur, TB: blk(c.curBlk + int64(r.Range(1, 4))), Confs: int64(in.Cfg.MinConfs) - 1, Tx: txHash()}, gap, false)
+				em.Hit("renew:under-confirmed")
+				return
+			case x < 90 && c.cur != "" && c.curBlk > 0: // an OLDER check block of the upkeep is accepted: absorbed, renews nothing
+				add(c17Op{T: "a", Key: c17Key(blk(c.curBlk-int64(r.Range(1, int(c17Min(c.curBlk, 3))))), c.id)}, gap, false)
+				em.Hit("renew:older-accept")
+				return
+			case x < 100 && c.cur != "" && c.logged && c.isPerf: // the perform log of the key in flight delivered again, unchanged
+				add(c17Op{T: "p", Key: c.cur, TB: blk(c.lastTB), Confs: goodConfs(), Tx: c.tx}, gap, false)
+				em.Hit("renew:dup-log")
+				return
+			}
+		}
+		add(c17Op{T: "s", Key: c17Key(blk(c.top+5), c.id), TB: "1", Confs: goodConfs()}, gap, false) // nothing else applies yet
+	}
+	// one raising event for chain c; returns false if none was possible
+	raise := func(c *chain, gap int64) {
+		x := r.Intn(100)
+		switch {
+		case c.cur != "" && !c.logged && x < 55:
+			// first confirmed log of the key in flight
+			if r.Chance(75) {
+				tb := c.curBlk + int64(r.Range(1, 6))
+				c.tx = txHash()
+				add(c17Op{T: "p", Key: c.cur, TB: blk(tb), Confs: goodConfs(), Tx: c.tx}, gap, true)
+				c.lastTB, c.isPerf = tb, true
+				if tb > c.top {
+					c.top = tb
+				}
+				em.Hit("renew:perform")
+			} else {
+				add(c17Op{T: "s", Key: c.cur, TB: blk(c.curBlk + int64(r.Range(1, 6))), Confs: goodConfs(), Tx: txHash()}, gap, true)
+				c.lastTB, c.isPerf = c.curBlk+1, false
+				if c.lastTB > c.top {
+					c.top = c.lastTB
+				}
+				em.Hit("renew:stale")
+			}
+			c.logged = true
+		case c.cur != "" && c.logged && c.isPerf && x < 20:
+			// the perform is re-orged to a later block: the released-up-to boundary rises
+			tb := c.lastTB + int64(r.Range(1, 4))
+			if r.Chance(25) {
+				c.tx = txHash()
+			}
+			add(c17Op{T: "p", Key: c.cur, TB: blk(tb), Confs: goodConfs(), Tx: c.tx}, gap, true)
+			c.lastTB = tb
+			if tb > c.top {
+				c.top = tb
+			}
+			em.Hit("renew:reorg")
+		default:
+			// the next key of the upkeep: a check block above everything seen (mostly past the last transmit block)
+			nb := c.curBlk + int64(r.Range(1, 3))
+			if c.cur == "" {
+				nb = c.top
+			} else if r.Chance(80) && c.top >= nb {
+				nb = c.top + int64(r.Range(0, 3))
+				if nb <= c.curBlk {
+					nb = c.curBlk + 1
+				}
+			}
+			if c.cur != "" {
+				c.oldKeys = append(c.oldKeys, c.cur)
+			}
+			c.cur, c.curBlk, c.logged, c.isPerf = c17Key(blk(nb), c.id), nb, false, false
+			if nb > c.top {
+				c.top = nb
+			}
+			if plugin && r.Chance(30) {
+				add(c17Op{T: "o"}, gap, false)
+				gap = 0
+			}
+			if plugin && r.Chance(35) {
+				add(c17Op{T: "A", Keys: []string{c.cur}}, gap, true)
+			} else {
+				add(c17Op{T: "a", Key: c.cur}, gap, true)
+			}
+			if plugin && r.Chance(50) {
+				add(c17Op{T: "o"}, 0, false)
+			}
+			em.Hit("renew:accept")
+		}
+	}
+	if plugin && r.Chance(80) {
+		add(headOp(), 0, false)
+	}
+	rounds := r.Range(2, 5)
+	for j := 0; j < rounds; j++ {
+		// the round starts a fraction of the window after the previous one; now and then more than a whole window
+		// (then the locks have run out: outside the statement, compared with the model only)
+		num := int64(r.Range(30, 92))
+		if r.Chance(7) {
+			num = int64(r.Range(100, 130))
+		}
+		g := win * num / 100
+		if j == 0 {
+			g = small()
+		}
+		// part of the wait is spent before operations that change nothing
+		nsp := r.Range(0, 2)
+		if j == 0 {
+			nsp = 0
+		}
+		for k := 0; k < nsp; k++ {
+			part := g * int64(r.Range(20, 60)) / 100
+			part -= part % c17Second
+			spacer(part)
+			g -= part + c17Second
+		}
+		if g < 0 {
+			g = 0
+		}
+		g -= g % c17Second
+		for q, ci := range r.Perm(len(chains)) {
+			c := chains[ci]
+			gap := small()
+			if q == 0 {
+				gap = g
+			}
+			raise(c, gap)
+			if r.Chance(45) {
+				raise(c, small())
+			}
+		}
+		if r.Chance(35) {
+			spacer(small())
+		}
+	}
+	if len(ops) > 40 {
+		ops, gaps, batch = ops[:40], gaps[:40], batch[:40]
+	}
+	for i := range batch {
+		batch[i] = r.Chance(30)
+	}
+	in.Probes, in.CKeys = c17Probes(ops, nil)
+	// final probe: around the end of the window that a write started, or somewhere inside it
+	var wr []int
+	for _, w := range writes {
+		if w < len(ops) {
+			wr = append(wr, w)
+		}
+	}
+	tailRef := len(ops) - 1
+	if len(wr) > 0 {
+		tailRef = wr[len(wr)-1]
+		if r.Chance(35) {
+			tailRef = wr[r.Intn(len(wr))]
+		}
+	}
+	tailSpan, tailDelta := win, int64(r.Range(-1, 1))
+	if r.Chance(40) {
+		tailSpan, tailDelta = win*int64(r.Range(40, 99))/100, 0
+	}
+	mk := func(o []c17Op, mid bool) c17RunIn {
+		return c17RunIn{Ops: o, Gaps: gaps, Batch: batch, Mid: mid, TailRef: tailRef, TailSpan: tailSpan, TailDelta: tailDelta}
+	}
+	in.Runs = append(in.Runs, mk(ops, true))
+	for p := 0; p < 3; p++ {
+		in.Runs = append(in.Runs, mk(c17Admissible(r, ops), false))
+	}
+	em.Hit("kind:renew")
+	em.Hit("via:" + in.Via)
+	if plugin {
+		em.Hit("decoy:" + in.Decoy)
+	}
+	em.Hit(fmt.Sprintf("ops=%d", (len(ops)/5)*5))
+	em.Hit(fmt.Sprintf("minConfs=%d", in.Cfg.MinConfs))
+	em.Hit(fmt.Sprintf("ids=%d", len(ids)))
+	em.Hit(fmt.Sprintf("renew:rounds=%d", rounds))
+	for _, o := range ops {
+		em.Hit("op:" + o.T)
+	}
+	return in
+}
+
+func c17Min(a, b int64) int64 {
+	if a < b {
+		return a
+	}
+	return b
+}
+
 // c17Edge: hand-written histories.
 func c17Edge() []c17Input {
 	mk := func(lockout int64, minConfs int, tail int64, ops []c17Op, perms ...[]int) c17Input {
@@ -1028,6 +1375,32 @@ func c17Edge() []c17Input {
 		// … through the plugin with a lockout shorter than one log poll (300 ms)
 		mkp(300, 0, []c17Op{h("9", "7", "8"), a("10|7"), a("10|8"), o, ptx("10|7", "25", 3, "0x01"), o, stx("10|8", 0, "0x02"), h("12", "7", "8"), o, h("26", "7", "8"), o}),
 	}
+	// final probe at (time of op ref) + span + delta
+	tailAt := func(in c17Input, ref int, span, delta int64) c17Input {
+		for i := range in.Runs {
+			in.Runs[i].TailRef, in.Runs[i].TailSpan, in.Runs[i].TailDelta = ref, span, delta
+		}
+		return in
+	}
+	w10 := 10*c17Second + 500_000_013
+	renew := []c17Input{
+		// several lockout windows (10.5 s): the next key of the upkeep is accepted 8 s after the first one and its log; the
+		// re-delivered accept 4 s later changes nothing but is followed by a probe (12 s: past first write + window); the
+		// final probe is at the very end of the window the SECOND accept started
+		tailAt(gapAt(gapAt(mk(w10, 0, 0, []c17Op{a("10|7"), ptx("10|7", "15", 3, "0xa1"), a("20|7"), a("20|7")}), 2, 8*c17Second), 3, 4*c17Second), 2, w10, 0),
+		// … one nanosecond later the lock is gone
+		tailAt(gapAt(mk(w10, 0, 0, []c17Op{a("10|7"), ptx("10|7", "15", 3, "0xa2"), a("20|7")}), 2, 8*c17Second), 2, w10, 1),
+		// a confirmed perform log long after the accept: blocks <= 15 stay filtered for a whole window after the LOG
+		tailAt(gapAt(gapAt(mk(w10, 0, 0, []c17Op{a("10|9"), ptx("10|9", "15", 0, "0xa3"), a("10|9")}), 1, 7*c17Second), 2, 4*c17Second), 1, w10, -1),
+		// three windows in a row, two upkeeps, a re-orged perform and a stale report as the renewing events
+		tailAt(gapAt(gapAt(gapAt(mk(w10, 1, 0, []c17Op{a("10|7"), a("10|8"), ptx("10|7", "12", 1, "0xa4"), s("10|8", 1),
+			ptx("10|7", "14", 2, "0xa4"), a("13|8"), a("15|7"), ptx("13|8", "16", 1, "0xa5"), a("10|8")}), 2, 6*c17Second), 4, 6*c17Second), 6, 7*c17Second), 7, w10, 0),
+		// an OLDER check block accepted 8 s after the newer one renews nothing: the lock ends a window after the first accept
+		tailAt(gapAt(mk(w10, 0, 0, []c17Op{a("20|7"), a("10|7")}), 1, 8*c17Second), 0, w10, 1),
+		tailAt(gapAt(mk(w10, 0, 0, []c17Op{a("20|7"), a("10|7")}), 1, 8*c17Second), 0, w10, 0),
+		// through the plugin (10 s): observes on one staged head while the lock is renewed by the next key
+		tailAt(gapAt(gapAt(mkp(10_000, 0, []c17Op{h("9", "7", "8"), o, a("10|7"), o, ptx("10|7", "12", 0, "0xa6"), o, A("14|7"), o, h("13", "7", "8"), o, rp("14", "7", "8"), x("14|7", "10|7")}), 6, 7*c17Second), 8, 4*c17Second), 6, 10_000*int64(time.Millisecond), 0),
+	}
 	e := func(where, kind string, logs ...c17Op) c17Op {
 		return c17Op{T: "e", Where: where, Kind: kind, Logs: logs}
 	}
@@ -1061,7 +1434,7 @@ func c17Edge() []c17Input {
 		// empty registry stages nothing; empty reports are errors
 		mkp(0, 0, []c17Op{h("10", "1"), h("11"), o, A(), x(), o}),
 	}
-	return append(append(append(values, fails...), plug...), []c17Input{
+	return append(append(append(append(values, renew...), fails...), plug...), []c17Input{
 		// accept only: pending for every block
 		mk(0, 1, 0, []c17Op{a("10|5")}),
 		// perform at 15: blocks > 15 pass
